@@ -41,7 +41,7 @@ func (P) Engine() string { return "E1" }
 func (P) Describe() harness.Description {
 	return harness.Description{
 		MustHit: []string{"bbr_evaluated", "load_reading_injected", "cpu_reading_injected", "outbound_admitted_while_inbound_gated"},
-		Level: "exploration",
+		Level:   "exploration",
 		Rule: "case = (statistic geometry, 0-4 system rules over the five metric types and both strategies; 20-100 ops: start inbound / outbound request on 2 resources, complete request j (duration = virtual time, ok/error), inject load / CPU readings, ticks biased to bucket and window boundaries). " +
 			"Outbound requests must never get a system block; an inbound request is blocked with BlockTypeSystemFlow iff some loaded rule is violated by the reference inbound aggregates (pass QPS and average RT over the aligned metric window of the tallied inbound events, live inbound count, injected load / CPU; BBR: in-flight > peak per-bucket completion rate x minimum RT). " +
 			"non-trivial = an inbound request was blocked and a later one admitted while outbound traffic continued; distinct = hash(config, ops)",
